@@ -1233,6 +1233,10 @@ func (env *Env) trCall(x *ECall) TV {
 			env.backing[t] = bt
 		}
 		return TV{t, b.Ty}
+	case "wrap64":
+		// the value of a 64-bit two's complement int holding this mathematical result
+		argN(1)
+		return TV{wrap64(env.tr(x.Args[0]).T), tyInt}
 	case "trunc":
 		argN(1)
 		e.decl("fn:f2i", "(declare-fun f2i (F64) Int)")
